@@ -372,6 +372,10 @@ Definition ins_frontier (budget target size : Z) (s : pstate) : outcome pstate p
   | Some m => Ok (if size =? 0 then {| ck := m; rt := rt s |} else prune budget {| ck := m; rt := rt s |})
   end.
 
+(** [ShardTree::truncate_to_checkpoint(target)]: nothing happens when no such checkpoint exists *)
+Definition trunc_to_ck (target : Z) (s : pstate) : pstate :=
+  if has_at (ck s) target then {| ck := filter (fun e => fst e <=? target) (ck s); rt := rt s |} else s.
+
 Definition truncate_to_chain_state (budget : Z) (blocks : list Z) (mn : mn3) (target : Z)
   (sizes : Z * Z * Z) (w : w3) : outcome w3 perr :=
   let trunc_trees := match zmax_list blocks with Some last => target <? last | None => false end in
@@ -406,7 +410,10 @@ Definition truncate_to_chain_state (budget : Z) (blocks : list Z) (mn : mn3) (ta
             match ins_frontier budget target zo wo with
             | Ok wo' =>
                 match ins_frontier budget target zi wi with
-                | Ok wi' => truncate_internal blocks1 mn1 target target (ws', wo', wi')
+                | Ok wi' =>
+                    (* each tree is truncated to the new checkpoint before the wallet rows are *)
+                    truncate_internal blocks1 mn1 target target
+                      (trunc_to_ck target ws', trunc_to_ck target wo', trunc_to_ck target wi')
                 | Err e => Err e | Panic => Panic
                 end
             | Err e => Err e | Panic => Panic
